@@ -176,6 +176,13 @@ class Fresh:
                         return False, f"{e.id} = {unparse(b.value)[:40]} ({why})"
                 elif isinstance(b, ast.AugAssign):
                     continue
+                elif isinstance(b, (ast.For, ast.comprehension)) and _walker_arguments(fn, mi, b.iter) is not None:
+                    # the variable walks over parts of what a local generator was given: as fresh as those arguments
+                    for a_ in _walker_arguments(fn, mi, b.iter):
+                        ok, why = self.fresh(_root(a_), fn, mi, ci, stack, depth - 1)
+                        if not ok:
+                            return False, f"{e.id} walks over parts of {unparse(a_)[:30]} ({why})"
+                    continue
                 elif isinstance(b, (ast.For, ast.comprehension)):
                     cands = self._table_column(b, e.id, fn)
                     if cands is not None:
@@ -191,6 +198,44 @@ class Fresh:
         if isinstance(e, ast.Attribute):
             return False, f"attribute {unparse(e)[:40]}"
         return False, type(e).__name__
+
+
+def _walker_arguments(fn, mi, it: ast.AST) -> Optional[List[ast.AST]]:
+    """If `it` is a call of a generator defined in this function or module that yields nothing but parts of its own
+    parameters (the parameter, an element of one of its attributes, or what a recursive call on such a part yields), the
+    call's arguments; None otherwise."""
+    if not (isinstance(it, ast.Call) and isinstance(it.func, ast.Name)):
+        return None
+    cands = [g for g in ast.walk(fn) if isinstance(g, ast.FunctionDef) and g.name == it.func.id and g is not fn]
+    if not cands and it.func.id in getattr(mi, "functions", {}):
+        cands = [mi.functions[it.func.id]]
+    if len(cands) != 1:
+        return None
+    g = cands[0]
+    gp = set(func_params(g))
+    ys = [y for y in walk_no_nested(g) if isinstance(y, (ast.Yield, ast.YieldFrom))]
+    if not ys:
+        return None
+
+    def part(x) -> bool:
+        r = _root(x)
+        if not isinstance(r, ast.Name):
+            return False
+        if r.id in gp:
+            return True
+        return _owner_param(g, r, gp) is not None
+    for y in ys:
+        if isinstance(y, ast.Yield):
+            if y.value is None or not part(y.value):
+                return None
+        else:
+            v = y.value
+            if isinstance(v, ast.Call) and isinstance(v.func, ast.Name) and v.func.id == g.name and all(part(a) for a in v.args):
+                continue
+            if part(v):
+                continue
+            return None
+    return list(it.args)
 
 
 def reaching_defs(fn, name: str, site: ast.AST):
